@@ -1289,8 +1289,13 @@ class RealFloat(numbers.Rational):
             return random.getrandbits(k)
         elif isinstance(rng, random.Random):
             return rng.getrandbits(k)
-        else:
+        elif k < 63:
             return int(rng.integers(0, 1 << k))
+        else:
+            # a numpy `Generator` draws integers of at most 64 bits: take
+            # the bytes (one draw still) and drop the surplus bits
+            nbytes = (k + 7) // 8
+            return int.from_bytes(rng.bytes(nbytes), 'little') >> (8 * nbytes - k)
 
     def _round_at_stochastic(
         self,
